@@ -228,7 +228,10 @@ func (e *env) reusedStruct() {
 // what Create stored - whatever the field held before: a serialized struct whose members were zero in
 // the new record, a map with other keys, a longer slice, a non-nil pointer. Fields whose column is
 // NULL in the row are not looked at (gorm leaves such a field as it is, see Assumptions).
-func (e *env) reusedStructOther() {
+// byKey: the loop `t.K1, t.K2 = key; db.First(&t)` instead - the key fields of the variable are set to the key
+// of the record asked for and there is no Where (only records whose non-zero key parts identify one row,
+// see destkey.go; for the others of the round the key is zeroed and the Where form is used).
+func (e *env) reusedStructOther(byKey bool) {
 	var recs []*rec
 	for _, rc := range e.keyed(6) {
 		if rc.null != nil {
@@ -243,26 +246,51 @@ func (e *env) reusedStructOther() {
 	for _, l := range e.m.pks {
 		pkNames = append(pkNames, "t."+l.name())
 	}
-	e.op("var t T; for key in [%s] { %s = <zero>; %s.Where(%q, key...).Take|First|Find(&t) }   // ONE struct for all reads", keyList(recs), strings.Join(pkNames, ", "), e.recv(), where)
+	sigp := "read-reused-struct-other"
+	if byKey {
+		sigp = "read-reused-struct-other-by-destination-key"
+		e.op("var t T; for key in [%s] { %s = key; %s.Take|First|Find(&t) }   // ONE struct for all reads, it carries the key of the record asked for, no Where", keyList(recs), strings.Join(pkNames, ", "), e.recv())
+	} else {
+		e.op("var t T; for key in [%s] { %s = <zero>; %s.Where(%q, key...).Take|First|Find(&t) }   // ONE struct for all reads", keyList(recs), strings.Join(pkNames, ", "), e.recv(), where)
+	}
 	out := reflect.New(e.m.typ)
+	keyReads := 0
 	for i, rc := range recs {
 		for _, l := range e.m.pks {
 			setLeaf(out, l, reflect.Zero(l.typ))
+		}
+		tx := e.tx()
+		form := fmt.Sprintf("%s.Where(%q, %v)", e.recv(), where, rc.pkArgs)
+		note := "key fields zeroed before the call"
+		usedKey := false
+		if vals, lits, _, ok := e.destKey(rc); byKey && ok {
+			for k, l := range e.m.pks {
+				setLeaf(out, l, vals[k])
+			}
+			form = e.recv()
+			note = "key fields set to {" + strings.Join(lits, ", ") + "} before the call, no Where"
+			usedKey = true
+		} else {
+			tx = tx.Where(where, rc.pkArgs...)
 		}
 		fin := []string{"Take", "First", "Find"}[(i+e.readRot)%3]
 		var res *gorm.DB
 		switch fin {
 		case "Take":
-			res = e.tx().Where(where, rc.pkArgs...).Take(out.Interface())
+			res = tx.Take(out.Interface())
 		case "First":
-			res = e.tx().Where(where, rc.pkArgs...).First(out.Interface())
+			res = tx.First(out.Interface())
 		default:
-			res = e.tx().Where(where, rc.pkArgs...).Find(out.Interface())
+			res = tx.Find(out.Interface())
 		}
-		how := fmt.Sprintf("%s.Where(%q, %v).%s(&t) [read %d into the same struct, key fields zeroed before the call]", e.recv(), where, rc.pkArgs, fin, i+1)
+		how := fmt.Sprintf("%s.%s(&t) [read %d into the same struct, %s]", form, fin, i+1, note)
 		if res.Error != nil {
-			e.problem("read-reused-struct-other/error", "%s: %v", how, res.Error)
+			e.problem(sigp+"/error", "%s: %v", how, res.Error)
 			continue
+		}
+		if usedKey {
+			keyReads++
+			e.c.Inc("reused_struct_other_reads_by_destination_key")
 		}
 		for _, l := range e.m.leaves {
 			x := rc.exp[l.ord]
@@ -274,15 +302,18 @@ func (e *env) reusedStructOther() {
 				continue
 			}
 			if got := canonGo(l, getLeaf(out.Elem(), l)); got != x.canon {
-				e.problem("read-reused-struct-other/"+l.kindName(), "%s: record %d field %s = %s, Create stored %s (the column holds a value)", how, rc.idx, l.name(), clip(got), clip(x.canon))
+				e.problem(sigp+"/"+l.kindName(), "%s: record %d field %s = %s, Create stored %s (the column holds a value)", how, rc.idx, l.name(), clip(got), clip(x.canon))
 			}
 			e.c.Inc("fields_compared_reused_struct_other")
 		}
-		e.checkShadowed("read-reused-struct-other", out.Elem(), how)
+		e.checkShadowed(sigp, out.Elem(), how)
 		e.c.Inc("reused_struct_other_reads")
 	}
-	if !e.callBad {
+	if !e.callBad && !byKey {
 		e.c.Shape(e.fs, e.opt, "reused-struct-other")
+	}
+	if !e.callBad && byKey && keyReads > 0 {
+		e.c.Shape(e.fs, e.opt, "reused-struct-other-by-destination-key")
 	}
 }
 
@@ -360,7 +391,10 @@ func (e *env) reuseRound(byPayload map[string]*rec) {
 	if on(1) {
 		e.reusedStruct()
 	}
-	e.reusedStructOther()
+	e.reusedStructOther(false)
+	if on(1) {
+		e.reusedStructOther(true)
+	}
 	if on(0) {
 		e.scanRowsLoop("map", byPayload)
 	}
